@@ -694,7 +694,15 @@ def prove(name, fn, requires=(), ensures=None, raises=(), timeout_ms=30000, max_
                 if ok is False and len(fails) < max_fail:
                     fails.append(Failure(oname, 'exception', m, f'{type(val).__name__}: {val}'))
                 continue
-            goal = z3.BoolVal(True) if ensures is None else ensures(val)
+            try:
+                goal = z3.BoolVal(True) if ensures is None else ensures(val)
+            except Budget:
+                raise
+            except Exception as e:      # the result does not even have the shape the postcondition talks about
+                goal = z3.BoolVal(False)
+                shape_err = f'postcondition not evaluable on the returned value: {type(e).__name__}: {e}'
+            else:
+                shape_err = None
             if not z3.is_expr(goal):
                 goal = z3.BoolVal(bool(goal))
             goal = z3.And(goal, *side) if side else goal
@@ -702,7 +710,7 @@ def prove(name, fn, requires=(), ensures=None, raises=(), timeout_ms=30000, max_
             ok = True if r == 'unsat' else False if r == 'sat' else None
             rows.append((oname, ok, 'P', be, dt))
             if ok is False and len(fails) < max_fail:
-                fails.append(Failure(oname, 'ensures', m, 'postcondition or no-wrap side condition has a counter-model'))
+                fails.append(Failure(oname, 'ensures', m, shape_err or 'postcondition or no-wrap side condition has a counter-model'))
     except Budget as e:
         rows.append((f'{name}#budget:{e}', None, 'P', 'path', 0.0))
     if n == 0 and not rows:
